@@ -563,15 +563,21 @@ def o_C05(x, ctx):
             for r in list(m.rows) + [ir for s in m.states for ir in s.irows] + list(m.irows):
                 if r.defer and r.evt in z.eid:
                     cond_types.add(z.eid[r.evt])
+    w0 = ctx.c.worlds.get(x.src)
+    dorder = w0.deferred_serials() if w0 is not None else []
+    rank = {s_: i for i, s_ in enumerate(dorder)}    # the order in which the pending events were deferred
     for t in x.trace:
         if t.K == 'A' and t.serial >= 0 and t.eid > 0:
             e = t.eid % 1000
             if e in cond_types:
                 continue    # conditional deferral decides per event object: no order between different objects
-            if e in lastser and t.serial < lastser[e]:
-                out.append(('order', f'event #{t.serial} of type {e} handled after #{lastser[e]} of the same type although it arrived earlier'))
+            if t.serial not in rank:
+                continue    # the clause is about deferred events; queued ones are C04's business
+            if e in lastser and rank[t.serial] < rank[lastser[e]]:
+                out.append(('order', f'event #{t.serial} of type {e} handled after #{lastser[e]} of the same type although it was deferred earlier'))
                 break
-            lastser[e] = max(lastser.get(e, -1), t.serial)
+            if e not in lastser or rank[t.serial] > rank[lastser[e]]:
+                lastser[e] = t.serial
     # 4. retention / exactly-once: pending sets and the callback sequence against the model
     ip = impl_pending_types(ctx.dst_canon(x))
     mp = model_pending_types(x.mworld)
